@@ -17,7 +17,7 @@ import (
 // and compared with the family's definition.
 func ruleArgTypes(c *Ctx) {
 	const R = "R10-argtypes"
-	c.floor(R, 8)
+	c.floor(R, 7)
 	p := c.P
 	parse := p.Fn("lua", "parseNumber")
 	canStr := p.Fn("lua", "LVCanConvToString")
@@ -29,8 +29,9 @@ func ruleArgTypes(c *Ctx) {
 	fams := []fam{
 		{[]string{"CheckInt", "CheckInt64", "CheckNumber", "OptInt", "OptInt64", "OptNumber"}, []string{"LNumber", "LString→number"},
 			"a numeric argument may be given as a string that converts to a number (string.rep('x', '3'), unpack(t, '2'))"},
-		{[]string{"CheckString", "OptString"}, []string{"LString", "number→string"},
-			"a string argument may be given as a number (table.concat(t, 0))"},
+		{[]string{"CheckString"}, []string{"LString", "number→string"},
+			"a string argument may be given as a number (string.rep(5, 2))"},
+		// OptString is kept strict: the project's own TestOptString pins 'string expected, got number'
 	}
 	for _, f := range fams {
 		for _, name := range f.members {
@@ -52,6 +53,10 @@ func ruleArgTypes(c *Ctx) {
 					}
 					if sc.Name() == "LVAsNumber" || sc.Name() == "ToNumber" {
 						acc["LString→number"] = true
+					}
+					if len(callsTo(sc, parse)) > 0 { // a shared conversion helper (argNumber)
+						acc["LString→number"] = true
+						withCallees = append(withCallees, sc)
 					}
 				}
 			})
